@@ -75,14 +75,21 @@ type chanDataChecker struct {
 	cur  cdCase
 	cls  map[[3]int]int64 // numClass, lenClass (as n%4 / special), pattern
 	eval int64
+	g    gate
 }
 
-func (c *chanDataChecker) violate(sig, detail string) {
+func (c *chanDataChecker) violate(sig, format string, args ...any) {
+	if c.g.full(sig) {
+		c.r.Violate(rep.Violation{Signature: sig})
+
+		return
+	}
 	c.r.Violate(rep.Violation{
 		Oracle:    "RFC 5766 §11.4/11.5 layout and Encode->Decode identity",
 		Signature: sig,
-		Detail:    fmt.Sprintf("number=0x%04x len=%d pattern=%s: %s", c.cur.Number, c.cur.Len, c.cur.Pattern, detail),
-		Replay:    c.cur,
+		Detail: fmt.Sprintf("number=0x%04x len=%d pattern=%s: ", c.cur.Number, c.cur.Len, c.cur.Pattern) +
+			fmt.Sprintf(format, args...),
+		Replay: c.cur,
 	})
 }
 
@@ -120,25 +127,29 @@ func (c *chanDataChecker) check(num int, payload []byte, pat int) {
 
 	wantLen := 4 + pad4(n)
 	if len(raw) != wantLen {
-		c.violate("chandata-encode:raw-length", fmt.Sprintf("len(Raw)=%d want 4+pad4(len)=%d", len(raw), wantLen))
+		c.violate("chandata-encode:raw-length", "len(Raw)=%d want 4+pad4(len)=%d", len(raw), wantLen)
 
 		return
 	}
 	if got := int(binary.BigEndian.Uint16(raw[0:2])); got != num {
-		c.violate("chandata-encode:number-field", fmt.Sprintf("Raw[0:2]=0x%04x", got))
+		c.violate("chandata-encode:number-field", "Raw[0:2]=0x%04x", got)
 	}
 	if got := int(binary.BigEndian.Uint16(raw[2:4])); got != n {
-		c.violate("chandata-encode:length-field", fmt.Sprintf("Raw[2:4]=%d", got))
+		c.violate("chandata-encode:length-field", "Raw[2:4]=%d", got)
 	}
 	if !bytes.Equal(raw[4:4+n], payload) {
 		c.violate("chandata-encode:payload-bytes", "Raw[4:4+len] differs from the payload")
 	}
 	for i := 4 + n; i < len(raw); i++ {
 		if raw[i] != 0 {
-			c.violate("chandata-encode:padding-nonzero", fmt.Sprintf("Raw[%d]=0x%02x after the payload", i, raw[i]))
+			c.violate("chandata-encode:padding-nonzero", "Raw[%d]=0x%02x after the payload", i, raw[i])
 
 			break
 		}
+	}
+
+	if c.eval%1000003 == 1 {
+		c.r.Sample(map[string]any{"case": c.cur, "raw": hexs(raw), "raw_len": len(raw)})
 	}
 
 	// Decode what was encoded (fresh view of the same bytes).
@@ -151,19 +162,31 @@ func (c *chanDataChecker) check(num int, payload []byte, pat int) {
 	valid := num >= 0x4000 && num <= 0x7FFF
 	switch {
 	case valid && err != nil:
-		c.violate("chandata-roundtrip:decode-error", "Decode(Encode(x)) failed: "+err.Error())
+		c.violate("chandata-roundtrip:decode-error", "Decode(Encode(x)) failed: %v", err)
 	case valid:
 		if int(c.dec.Number) != num {
-			c.violate("chandata-roundtrip:number", fmt.Sprintf("decoded number 0x%04x", int(c.dec.Number)))
+			c.violate("chandata-roundtrip:number", "decoded number 0x%04x", int(c.dec.Number))
 		}
 		if !bytes.Equal(c.dec.Data, payload) {
-			c.violate("chandata-roundtrip:payload", fmt.Sprintf("decoded %d bytes, differs from payload", len(c.dec.Data)))
+			c.violate("chandata-roundtrip:payload", "decoded %d bytes, differs from payload", len(c.dec.Data))
+		}
+		// Re-encode the decoded message in place (Data is a sub slice of Raw,
+		// the documented usage): the bytes must stay the same message.
+		c.dec.Encode()
+		re := c.dec.Raw
+		ok := len(re) == wantLen && int(binary.BigEndian.Uint16(re[0:2])) == num && int(binary.BigEndian.Uint16(re[2:4])) == n &&
+			bytes.Equal(re[4:4+n], payload)
+		for i := 4 + n; ok && i < len(re); i++ {
+			ok = re[i] == 0
+		}
+		if !ok {
+			c.violate("chandata-reencode:differs", "Encode() of the decoded message (Data aliasing Raw) produced %s", hexs(re))
 		}
 	case err == nil:
 		c.violate("chandata-roundtrip:invalid-number-accepted", "Decode succeeded for a channel number outside 0x4000..0x7FFF")
 	}
 	if is != valid {
-		c.violate("chandata-roundtrip:ischanneldata", fmt.Sprintf("IsChannelData(Encode(x))=%v want %v", is, valid))
+		c.violate("chandata-roundtrip:ischanneldata", "IsChannelData(Encode(x))=%v want %v", is, valid)
 	}
 }
 
@@ -209,7 +232,7 @@ func TestC11ChannelData(t *testing.T) {
 	}
 	numbers := []int{0, 0x3FFF, 0x4000, 0x4001, 0x7FFE, 0x7FFF, 0x8000, 0xFFFF}
 
-	c := &chanDataChecker{r: r, cls: map[[3]int]int64{}}
+	c := &chanDataChecker{r: r, cls: map[[3]int]int64{}, g: gate{}}
 	defer c.flush()
 	describe := func() any { return c.cur }
 
@@ -242,8 +265,5 @@ func TestC11ChannelData(t *testing.T) {
 
 		return true
 	})
-	if shard == 0 {
-		r.Sample(map[string]any{"part": "chandata", "example": "number=0x4000 payload=01 08 0f -> Raw=40 00 00 03 01 08 0f 00; Decode -> (0x4000, 01 08 0f)"})
-	}
 	r.Bound = maxPayload
 }
